@@ -71,8 +71,10 @@ def run(R, tier):
             d = G.js_decode(subjects, key2idx)
             dec.append({'check': f'list_eqb elem_eqb (map (decode {canc}) (graph_subjects {canc} {rawc})) {G.clist([G.elem_to_coq(e) for e in d])}',
                         'meta': {'what': 'decode', 'algebra': an, 'tree': str(raw), 'impl': str(d)}})
-        except AssertionError as e:
-            viol('payload-shape', f'unexpected payload shape {e}', algebra=an, tree=str(raw)); continue
+        except (AssertionError, ValueError) as e:
+            # e.g. bytes that are not whole float64 numbers, or do not decode to the coefficients supplied
+            viol('payload-shape', f'the payload of {str(raw)[:200]} in {an} is not what the front end reads (Float64Array / number lists): {type(e).__name__} {e}'[:400],
+                 algebra=an, tree=str(raw)); continue
         want = [y for t in G.pre_subjects_tree(raw) for y in G.truth(t)]
         if want != d:
             viol('decode-encode', f'the front end would see {str(d)[:300]} for the tree {str(raw)[:300]} in {an}; the coefficients read through attribute access are {str(want)[:300]}',
@@ -106,7 +108,10 @@ def run(R, tier):
         mv = G.to_py(t)
         other = G.to_py(('mv', an, canon, [[0]] * len(canon), False, 'list'))
         w = alg.graph(other, mv)
-        cur = G.js_decode(w.subjects, w.key2idx)[1][1]
+        try:
+            cur = G.js_decode(w.subjects, w.key2idx)[1][1]
+        except (AssertionError, ValueError) as e:
+            viol('payload-shape', f'the payload of {str(t)[:200]} in {an} is not what the front end reads: {type(e).__name__} {e}'[:400], algebra=an, tree=str(t)); continue
         steps = rng.randint(1, 3)
         for _ in range(steps):
             new = [x if rng.random() < 0.4 else rng.randint(-9, 9) for x in cur]
